@@ -8,6 +8,7 @@ package main
 
 import (
 	"fmt"
+	"os"
 	"sort"
 	"strings"
 
@@ -234,6 +235,9 @@ type vbRule struct {
 func (v *vbRule) CallResult(x *Explorer, fr *Frame, c ssa.CallInstruction) ([]AV, CallMode) {
 	k := callKey(c.Common())
 	if (strings.HasSuffix(k, ".IsPositive") || strings.HasSuffix(k, ".IsNegative") || strings.HasSuffix(k, ".IsZero")) && len(c.Common().Args) == 1 {
+		if os.Getenv("VERIF_DEBUG") == "vb" {
+			fmt.Fprintln(os.Stderr, "VB", fr.Fn, x.TM.OperandAt(fr, c, c.Common().Args[0]).String())
+		}
 		if v.match(x.TM.OperandAt(fr, c, c.Common().Args[0])) {
 			v.used++
 			switch {
